@@ -153,7 +153,6 @@ def _stacker(chk):
                     inv["rename_from"] |= ks
                     inv["rename_to"] |= vs
     want_to = {"self.dims_mapping[self.sample_name][0]", "self.dims_mapping[self.feature_name][0]"}
-    inv["rename_to"] = {t.replace("[sample_name]", "[self.sample_name]").replace("[feature_name]", "[self.feature_name]") for t in inv["rename_to"]}
     okinv = inv["unstack"] == {"self.sample_name", "self.feature_name"} and inv["rename_from"] == {"self.sample_name", "self.feature_name"} \
         and inv["rename_to"] == want_to
     chk.check(okinv, "MIRROR.state.stack.inverse", un, un.node, construct="_unstack_to_dataarray: unstack(name) / rename({name: dims_mapping[name][0]})",
@@ -221,14 +220,27 @@ def _stacker(chk):
         m = st.methods[mname]
         got = {}
         default_raises = False
-        for mt in [n for n in walk_no_nested(m.node) if isinstance(n, ast.Match)]:
-            okm = norm(mt.subject) == "self.data_type"
-            for case in mt.cases:
-                if isinstance(case.pattern, ast.MatchValue) and const_str(case.pattern.value):
-                    callee = [dotted(c.func).split(".")[-1] for s in case.body for c in ast.walk(s) if isinstance(c, ast.Call) and dotted(c.func)]
-                    got[const_str(case.pattern.value)] = callee[0] if callee else None
-                elif isinstance(case.pattern, ast.MatchAs) and case.pattern.pattern is None:
-                    default_raises = any(isinstance(s, ast.Raise) for s in case.body)
+        # which helper runs under `self.data_type == <name>` (however the branch is written), and is anything else refused
+        from .common import atomic_conditions, cmp_forms
+        mf = FuncFacts.of(m)
+
+        def type_conds(node):
+            eq, ne = set(), set()
+            for t, pol in atomic_conditions(mf, node):
+                for op, a, b in cmp_forms(t, pol):
+                    if norm(a) == "self.data_type" and const_str(b) is not None:
+                        (eq if op == "Eq" else ne if op == "NotEq" else set()).add(const_str(b))
+            return eq, ne
+
+        for c in calls_in(m):
+            if is_self_attr(c.func) and c.func.attr.startswith("_unstack"):
+                eq, _ = type_conds(c)
+                for k in eq:
+                    got[k] = c.func.attr
+        for r in [n for n in walk_no_nested(m.node) if isinstance(n, ast.Raise)]:
+            _, ne = type_conds(r)
+            if ne and ne >= set(got):
+                default_raises = True
         chk.check(got == want and default_raises, "MIRROR.state.type.dispatch", m, m.node, construct=f"{mname} dispatches {want}",
                   why=f"inverse dispatch on the stored container type is {got} (raising default: {default_raises})")
     # reorder
